@@ -47,6 +47,9 @@ pub mod haversine { use super::*;
 #[verifier::external_body] pub struct NnIter<'a> { _p: core::marker::PhantomData<&'a u8> }
 impl RTree {
     pub uninterp spec fn order(&self, p: &PointF32) -> Seq<EdgeRtreeRecord>;
+    // neighbouring API (assumed: the first record of the same order)
+    #[verifier::external_body] pub fn nearest_neighbor<'a>(&'a self, p: &PointF32) -> (r: Option<&'a EdgeRtreeRecord>)
+        ensures r is Some <==> self.order(p).len() > 0, r matches Some(x) ==> *x == self.order(p)[0] { unimplemented!() }
     #[verifier::external_body] pub fn nearest_neighbor_iter_with_distance_2<'a>(&'a self, p: &PointF32) -> (r: NnIter<'a>) ensures r.seq() == self.order(p), r.pos() == 0 { unimplemented!() }
 }
 impl<'a> NnIter<'a> {
@@ -87,6 +90,7 @@ def build(x):
     parts.append("#[derive(Clone, Copy, PartialEq, Eq)]\n" + fam[0] + "\n")
     parts.append(fam[1])
     parts.append("impl DistanceUnit {\n    %s\n}\n" % fam[2])
+    parts.append(x.item_text("routee-compass-core/src/model/unit/builders.rs", "const BASE_DISTANCE_UNIT") + "\n")   # neighbouring API (so that code using it still type-checks)
     parts.append(SHIMS)
     wt = x.fn(F, "fn within_tolerance")
     wt.replace_macro_calls(r"format", "verif_format()")
@@ -148,7 +152,6 @@ def build(x):
         ensures verif_it.pos() == verif_it.seq().len(),""")
     f.loop_body_start(1, "        let ghost k0 = verif_it.pos();")
     f.insert_before(r"return Ok\(Some\(record\.edge_id\)\);", "            proof { assert(verif_it.seq()[k0].edge_id == record.edge_id); }")
-    f.insert_before(r"return Ok\(None\);", "            proof { assert(!within(tolerance, &coord, verif_it.seq()[k0])); }")
     parts.append(f.text + "\n")
     parts.append("""
 // vacuity guard: MUST FAIL
